@@ -58,6 +58,77 @@ func Resign(body []byte, key crypto.Signer, pss bool, mutate func(payload *cb.No
 	return cbor.Marshal(tok)
 }
 
+// ResignRaw replaces the payload of a tagged COSE_Sign1 by raw bytes (well-formed or not) and signs.
+func ResignRaw(body []byte, key crypto.Signer, pss bool, payload []byte) ([]byte, error) {
+	var tok RawSign1
+	if err := cbor.Unmarshal(body, &tok); err != nil {
+		return nil, fmt.Errorf("decode sign1: %w", err)
+	}
+	tok.Payload = cbor.NewByteWrap(cbor.RawBytes(payload))
+	if err := tok.Sign(key, nil, nil, SignOpts(key, pss)); err != nil {
+		return nil, fmt.Errorf("sign: %w", err)
+	}
+	return cbor.Marshal(tok)
+}
+
+// sweepSigned enumerates single-point structural mutants of the authenticated part of a message and
+// repairs the authentication around each with harness-owned keys, so that the mutant reaches the code
+// behind the integrity check: TO0.OwnerSign (to0d mutated, hash recomputed, to1d re-signed by the
+// owner), TO1.ProveToRV / TO2.ProveDevice (token payload mutated, re-signed by the device key).
+// It returns the number of cases and a builder for case i.
+func (e *Exec) sweepSigned(s *slot, t int, base []byte) (int, func(i int) ([]byte, string, error), error) {
+	switch t {
+	case 22:
+		msg, err := cb.DecodeAll(base)
+		if err != nil || len(msg.Kids) != 2 {
+			return 0, nil, fmt.Errorf("unexpected OwnerSign shape")
+		}
+		to0d, err := msg.Kids[0].Inner()
+		if err != nil {
+			return 0, nil, err
+		}
+		cases := cb.Sweep(to0d, 2)
+		owner := e.W.Owner
+		return len(cases), func(i int) ([]byte, string, error) {
+			c := cases[i]
+			to1d, err := Resign(msg.Kids[1].Encode(), owner.Key, owner.Kind.PSS(), func(p *cb.Node) {
+				hn := p.At(1)
+				var h crypto.Hash = crypto.SHA256
+				if alg := hn.At(0); alg.Major == 1 && alg.Val == 42 {
+					h = crypto.SHA384
+				}
+				hh := h.New()
+				hh.Write(c.Body)
+				hn.Kids[1] = cb.Bstr(hh.Sum(nil))
+			})
+			if err != nil {
+				return nil, "", err
+			}
+			t1, err := cb.DecodeAll(to1d)
+			if err != nil {
+				return nil, "", err
+			}
+			return cb.Arr(cb.Bstr(c.Body), t1).Encode(), "to0d~" + c.What, nil
+		}, nil
+	case 32, 64:
+		var tok RawSign1
+		if err := cbor.Unmarshal(base, &tok); err != nil || tok.Payload == nil {
+			return 0, nil, fmt.Errorf("unexpected token shape")
+		}
+		pt, err := cb.DecodeAll([]byte(tok.Payload.Val))
+		if err != nil {
+			return 0, nil, err
+		}
+		cases := cb.Sweep(pt, 2)
+		dev := s.dev
+		return len(cases), func(i int) ([]byte, string, error) {
+			b, err := ResignRaw(base, dev.Key, dev.Kind.PSS(), cases[i].Body)
+			return b, "payload~" + cases[i].What, err
+		}, nil
+	}
+	return 0, nil, fmt.Errorf("no signed sweep for message type %d", t)
+}
+
 func randBytes(n int) []byte {
 	b := make([]byte, n)
 	_, _ = rand.Read(b)
